@@ -69,6 +69,9 @@ func renderOne(vc *FuncVC, head string, o *Obl) string {
 	return b.String()
 }
 
+// solverHint: obligation name -> the solver that discharged it at baseline time
+var solverHint = map[string]string{}
+
 var fileSeq int
 var fileMu sync.Mutex
 
@@ -258,10 +261,22 @@ func solveObl(ctx context.Context, vc *FuncVC, o *Obl, timeoutMs int, dir string
 		}
 		return res
 	}
-	first := run(solvers[0], timeoutMs)
+	// start with the solver that decided this obligation when the baseline was recorded (a hint, not a requirement)
+	order := solvers
+	if h := solverHint[o.Name]; h != "" && h != solvers[0].name {
+		order = nil
+		for _, sp := range solvers {
+			if sp.name == h {
+				order = append([]solverSpec{sp}, order...)
+			} else {
+				order = append(order, sp)
+			}
+		}
+	}
+	first := run(order[0], timeoutMs)
 	if agree || (first != "unsat" && first != "sat") {
 		var wg sync.WaitGroup
-		for _, sp := range solvers[1:] {
+		for _, sp := range order[1:] {
 			wg.Add(1)
 			go func(sp solverSpec) {
 				defer wg.Done()
